@@ -70,6 +70,33 @@ theorem C08_source_shape :
     Gen.Store.rollbackFilterStoreFirst = true ∧
     0 < Gen.Store.blockHeaderSize ∧ 0 < Gen.Store.regularFilterHeaderSize := by decide
 
+/-- The very first start (empty data directory), killed right before its n-th
+index transaction, must also restart cleanly.  Full statement — FALSE of the
+code (recorded finding `crash-during-first-init`): once a store's genesis entry
+is in its flat file but not yet in the index, the constructor fails for ever
+("the key … does not exist in bucket header-index"). -/
+def C08_first_init : Prop := ∀ n, ∃ d', reopen (initCrash n) = some d' ∧ Rep d' Log.init
+
+theorem C08_first_init_counterexample : reopen (initCrash 2) = none ∧ reopen (initCrash 4) = none := by
+  decide
+
+theorem C08_first_init_false : ¬ C08_first_init := by
+  intro h
+  obtain ⟨d', h1, _⟩ := h 2
+  have := C08_first_init_counterexample.1
+  rw [this] at h1
+  cases h1
+
+/-- every other point of the first start recovers to the freshly initialised stores -/
+theorem C08_first_init_partial (n : Nat) (h2 : n ≠ 2) (h4 : n ≠ 4) :
+    ∃ d', reopen (initCrash n) = some d' ∧ Rep d' Log.init := by
+  refine ⟨init, ?_, rep_init⟩
+  match n, h2, h4 with
+  | 0, _, _ => decide
+  | 1, _, _ => decide
+  | 3, _, _ => decide
+  | n + 5, _, _ => simp only [initCrash]; decide
+
 /-! Non-vacuity: concrete states and crash points. -/
 example : Rep init Log.init := rep_init
 example : (exec init (.wb [1, 2, 3]) (.crash 0 100)).2 = .crashed := by decide
